@@ -2,7 +2,7 @@
    Maven domain predicate.  The parsed version is printed in the shape of semver.VerifDump
    (kind sv_parse of harness/go/cmd/implrun/semver.go). *)
 From DepsDev Require Import Lib.Base Lib.Sx Semver.Version Semver.Maven Semver.Gem Semver.Compare
-  Semver.MavenParse Semver.GemParse Semver.MavenDomain Semver.GemDomain Spec.MavenSpec Spec.GemSpec.
+  Semver.MavenParse Semver.GemParse Semver.MavenDomain Semver.GemDomain Semver.GemSegments Spec.MavenSpec Spec.GemSpec.
 Local Open Scope Z_scope.
 
 Definition sx_ext (e : extension) : sx :=
@@ -86,6 +86,13 @@ Fixpoint sx_item (i : item) : sx :=
   | IList l => SL (map sx_item l)
   end.
 
+Definition k_gem_tie : bytes := [115;118;109;95;103;101;109;95;116;105;101]%N.                                 (* svm_gem_tie *)
+Fixpoint segs_eqb (a b : list seg) : bool :=
+  match a, b with
+  | [], [] => true
+  | x :: a', y :: b' => seg_eqb x y && segs_eqb a' b'
+  | _, _ => false
+  end.
 Definition k_dmvn_wide : bytes := [115;118;109;95;100;109;118;110;95;119;105;100;101]%N.                 (* svm_dmvn_wide *)
 Definition k_dmvn : bytes := [115;118;109;95;100;109;118;110]%N.                                  (* svm_dmvn *)
 
@@ -111,6 +118,17 @@ Definition run_MvnGem (kind : bytes) (a : sx) : option sx :=
               match gem_parse s with
               | Ok v => SL [sx_bool (gem_c01_dom v); sx_bool (gem_release_only v)]
               | _ => SL [SB sym_err]
+              end
+          | _ => badcase end)
+  else if bytes_eqb kind k_gem_tie then
+    (* (str) -> (both accept, hypothesis c02_wf_b of C02_gem_partial, the segments of the parse made
+       with the repaired trimming loop are the canonical segments Gem::Version scans) *)
+    Some (match a with
+          | SL [SB s] =>
+              match gem_parse_with true s, g_correct s with
+              | Ok v, true => SL [SI 1; sx_bool (c02_wf_b v);
+                                  sx_bool (segs_eqb (g_canonical (gem_segments v)) (gspec_canonical s))]
+              | _, _ => SL [SI 0]
               end
           | _ => badcase end)
   else if bytes_eqb kind k_spec_gem_norm then
